@@ -3,6 +3,7 @@
 package vcase
 
 import (
+	"encoding/json"
 	"fmt"
 
 	"go.flow.arcalot.io/engine/internal/verif/vplug"
@@ -476,15 +477,18 @@ func (g *genCtx) genTagTree(label string, depth int) *Val {
 	n := rapid.IntRange(1, 3).Draw(t, label+".n")
 	if rapid.IntRange(0, 3).Draw(t, label+".list?") == 0 {
 		v := &Val{K: "list"}
+		// list items must have one type: the same object (holding a tag) is repeated
+		item := &Val{K: "map"}
+		if tv := g.genTag(label+".item", true); tv != nil {
+			item.Set("t", tv)
+		} else {
+			item.Set("t", LitVal(StrLit("x")))
+		}
 		for i := 0; i < n; i++ {
-			// list items must have one type: objects holding a tag each
-			item := &Val{K: "map"}
-			if tv := g.genTag(fmt.Sprintf("%s.%d", label, i), true); tv != nil {
-				item.Set("t", tv)
-			} else {
-				item.Set("t", LitVal(StrLit("x")))
-			}
-			v.Vals = append(v.Vals, item)
+			b, _ := json.Marshal(item)
+			var cp Val
+			_ = json.Unmarshal(b, &cp)
+			v.Vals = append(v.Vals, &cp)
 		}
 		g.label("tagtree:list")
 		return v
